@@ -28,6 +28,9 @@ MCLayoutsC == {L_1, L_2, L_3}
 L_5_2 == Lay(<<<<1, 5>>, <<5, 2>>>>)
 MCLayoutsF == {L_3_2, L_5_2}
 MCLayoutsG == {L_3_2}
+\* coarser retention (8) shorter than finer retention (6) + coarser step (4): a covered coarse interval may start at now - retention
+L_6_42 == Lay(<<<<1, 6>>, <<4, 2>>>>)
+MCLayoutsH == {L_6_42}
 XffThirds == {<<1, 3>>, <<2, 3>>}
 XffFifths == {<<1, 5>>, <<3, 5>>, <<1, 3>>, <<2, 3>>}
 MCLayouts3 == {L_2_2_2}
